@@ -1,5 +1,6 @@
 import Norad.Spec.C02
 import Norad.Props.C12
+import Norad.Lemmas.C02
 /-!
 # C02 — encoding a glyph to glif XML and parsing it back is lossless
 
@@ -11,10 +12,11 @@ It fails for lib text with newlines (options-dependent re-indentation), for note
 for subnormal advances and for empty contours; the three `_counterexample`s below are replayed on the real
 crate by corpus/C02/witnesses.case.  Proved here: the value-level facts behind the guards of `_partial`.
 
-OPEN: glif_roundtrip_partial (parseGlif rd (encodeGlif f g) = .ok g' ∧ g' ≈ g under the guards newline-free lib
-text, trimmed non-empty note, normal advance, no empty contour, `rd (shw b) = some b`).  The statement is
-evaluated on every generated glyph by the correspondence run (model read-back vs implementation, and the
-oracle `Spec02.diff`); the kernel-checked part is below.
+Kernel-checked (second phase): the element-level writer → parser round trips `anchor_roundtrip`, `guideline_roundtrip`,
+`point_roundtrip`, `component_roundtrip`, `image_roundtrip`, `advance_roundtrip`, `unicode_roundtrip`,
+`contourAttrs_roundtrip`, `glyphAttrs_roundtrip` and the composition `parse_encode` (all in `Lemmas/C02.lean`, listed in
+the audit): for EVERY valid glyph, `parseGlif rd (encodeGlif f g) = loadObjectLibs (preG f nc g)`; and
+`glif_roundtrip_partial_no_object_libs` below.
 -/
 namespace Glif
 
@@ -117,5 +119,88 @@ example :
      | .ok g => (match g.anchors with | [a] => a.lib.isSome && g.lib.isEmpty | _ => false)
      | .error _ => false) = true := by
   decide +kernel
+
+/-! ### the round trip -/
+
+section
+variable {f : Fmt} {rd : Str → Option Nat} {nc : Color → Color} {ok : Nat → Prop}
+
+/-- **glif_roundtrip_partial** (glyphs without object libs): for every valid glyph, under the guards that the
+    recorded findings force — lib text the re-indentation leaves alone, a note that is its own non-empty trim, an
+    advance that is normal or `+0`, the reserved key unused — the parser accepts what the writer produces and
+    returns `normG nc g`, which does not depend on the options. -/
+theorem glif_roundtrip_partial_no_object_libs (hc : Codec f rd nc ok) {g : Glyph} (hv : ValidGlyph ok g)
+    (hobj : NoObjectLibs g)
+    (hkey : dictGet objectLibsKey g.lib = none)
+    (hlib : reindentDict f.indent g.lib = g.lib)
+    (hnote : ∀ n, g.note = some n → trimText n = n ∧ n ≠ [])
+    (hadv : (isNormal g.width = true ∨ g.width = 0) ∧ (isNormal g.height = true ∨ g.height = 0)) :
+    parseGlif rd (encodeGlif f g) = .ok (normG nc g) := by
+  rw [parse_encode hc hv]
+  have hw : writtenLib g = g.lib := by simp [writtenLib, dump_empty_of_no_libs hobj]
+  have hn : pNote g.note = g.note := by
+    cases hgn : g.note with
+    | none => rfl
+    | some n =>
+      obtain ⟨h1, h2⟩ := hnote n hgn
+      have : (trimText n).isEmpty = false := by rw [h1]; cases n <;> simp_all
+      simp [pNote, h1, h2]
+  have hwd : (if isNormal g.width || isNormal g.height then (if nonZero g.width then g.width else 0) else 0) = g.width := by
+    rcases hadv.1 with h | h
+    · simp [h, isNormal_nonZero h]
+    · simp [h]
+  have hht : (if isNormal g.width || isNormal g.height then (if nonZero g.height then g.height else 0) else 0) = g.height := by
+    rcases hadv.2 with h | h
+    · simp [h, isNormal_nonZero h]
+    · simp [h]
+  have hpre : preG f nc g = normG nc g := by
+    simp only [preG, normG, hw, hlib, hn, hwd, hht]
+  rw [hpre]
+  have : dictGet objectLibsKey (normG nc g).lib = none := hkey
+  simp [loadObjectLibs, this]
+
+end
+
+/-! ### non-vacuity of the codec hypotheses and of `ValidGlyph` -/
+
+def ok0 : Nat → Prop := fun b => b = 0
+def nc0 : Color → Color := fun _ => ⟨0, 0, 0, 0⟩
+
+theorem codec0 : Codec F0 R0 nc0 ok0 := by
+  constructor
+  · intro b hb
+    cases hb
+    rfl
+  · intro c
+    rfl
+
+def g0 : Glyph :=
+  { name := ['a'], codepoints := [65],
+    anchors := [{ x := 0, y := 0, name := some ['t'], color := some ⟨0, 0, 0, 0⟩, ident := some ['i'] }],
+    contours := [{ points := [{ x := 0, y := 0, typ := .line, smooth := false, name := none, ident := some ['p'] }], ident := none }],
+    components := [{ base := ['b'], transform := { xScale := 0, xyScale := 0, yxScale := 0, yScale := 0, xOffset := 0, yOffset := 0 }, ident := some ['k'] }],
+    lib := [(['k'], PV.str ['v'])] }
+
+theorem valid_g0 : ValidGlyph ok0 g0 := by
+  refine ⟨by decide, rfl, rfl, ?_, by decide, ?_, ?_, ?_, ?_, ?_, by decide⟩
+  · intro c hc; simp [g0] at hc; subst hc; exact ⟨by decide, by decide⟩
+  · intro i hi; simp [g0] at hi
+  · intro a ha; simp [g0] at ha; subst ha
+    exact ⟨rfl, rfl, by intro n hn; cases hn; decide, by intro i hi; cases hi; decide⟩
+  · intro a ha; simp [g0] at ha
+  · intro c hc; simp [g0] at hc; subst hc
+    refine ⟨?_, by decide, by simp, by intro i hi; cases hi⟩
+    intro p hp; simp at hp; subst hp
+    exact ⟨rfl, rfl, (by intro n hn; cases hn), (by intro i hi; cases hi; decide)⟩
+  · intro k hk; simp [g0] at hk; subst hk
+    exact ⟨by decide, ⟨rfl, rfl, rfl, rfl, rfl, rfl⟩, by intro i hi; cases hi; decide⟩
+
+-- the round-trip theorem applies to `g0` (its hypotheses are satisfiable) and the glyph comes back
+example : parseGlif R0 (encodeGlif F0 g0) = .ok (normG nc0 g0) :=
+  glif_roundtrip_partial_no_object_libs codec0 valid_g0
+    ⟨by intro a ha; simp [g0] at ha; subst ha; rfl, by intro a ha; simp [g0] at ha,
+     by intro c hc; simp [g0] at hc; subst hc; exact ⟨rfl, by intro p hp; simp at hp; subst hp; rfl⟩,
+     by intro a ha; simp [g0] at ha; subst ha; rfl⟩
+    (by decide) (by simp [g0, F0, reindentDict, reindentPV, reindent]) (by intro n hn; cases hn) ⟨Or.inr rfl, Or.inr rfl⟩
 
 end Glif
